@@ -5,6 +5,7 @@ sys.path.insert(0, os.path.dirname(os.path.abspath(__file__)))
 import vlib
 
 FAMILY = {
+    "C01": "fam_vnet",
     "C02": "fam_nat", "C03": "fam_nat",
     "C04": "fam_replay", "C05": "fam_replay",
     "C06": "fam_buffer", "C07": "fam_buffer",
